@@ -66,12 +66,23 @@ func (g *gen) rnd() uint32 {
 
 // Generate writes one VP8L bitstream (with its 5-byte header).
 func Generate(pk Picker, seed int64) (stream []byte, desc string) {
+	return GenerateSized(pk, seed, 0, 0)
+}
+
+// GenerateSized is Generate with the picture size imposed (w, h > 0), as for
+// the headerless streams inside ALPH chunks.
+func GenerateSized(pk Picker, seed int64, fw, fh int) (stream []byte, desc string) {
 	g := &gen{pk: pk, w: &bitWriter{}, seed: uint32(seed)*2654435761 + 0x9e3779b9}
 	if g.seed == 0 {
 		g.seed = 1
 	}
 	order := TransformOrders[pk.Free(len(TransformOrders), "transforms")]
-	dim := Dims[pk.Free(len(Dims), "dims")]
+	dim := Dims[0]
+	if fw > 0 && fh > 0 {
+		dim = [2]int{fw, fh}
+	} else {
+		dim = Dims[pk.Free(len(Dims), "dims")]
+	}
 	w, h := dim[0], dim[1]
 	tileBits := 2 + pk.Free(2, "tilebits")
 	var names []string
